@@ -5,25 +5,41 @@ import re
 
 from corr import _httpchan as H
 
-HEADLINE = "TwistedProps.C21.nothing_after_loss"
+HEADLINE = ("TwistedProps.C21.at_most_one_request_in_flight / responses_in_request_order_not_interleaved / "
+            "written_is_concatenation_of_responses / notifyFinish_fires_exactly_once / notifyFinish_result_matches_order")
 RULE = ("1-5 pipelined requests (bodies by Content-Length/chunked, Connection: close, HTTP/1.0, a malformed one) cut into random "
         "deliveries, interleaved with: the application finishing the request it holds (resources answer at once, in pieces, later, "
         "never; 0-2 notifyFinish Deferreds each), transport pauseProducing/resumeProducing, and connectionLost inserted at every "
         "position of the event list (one case per position for short histories); distinct = (shape of the event log, lost?, closed?)")
 ASSUMES = [
-    "a well-behaved application: it finishes a request at most once and not after its connection was lost (Request.finish raises then)",
-    "a real transport: nothing is delivered after loseConnection()/connectionLost, no producer calls after the channel unregistered",
-    "a notifyFinish Deferred of a request that is neither finished nor lost has not fired (it fires when one of the two happens)",
+    "a well-behaved application (the model's `step`): it finishes only the request it currently holds, at most once, and not after "
+    "its connection was lost (Request.finish raises then); what it writes / whether it finishes at once, later or never / how many "
+    "notifyFinish Deferreds it takes is arbitrary (the theorems quantify over every App)",
+    "a real transport (the model's `step`): nothing is delivered and no producer call is made after loseConnection()/an exception out "
+    "of dataReceived; nothing at all after connectionLost",
+    "the notifyFinish Deferreds of one request are modelled as a count and their firing loop as one event `notify k n ok` "
+    "(all n with the same result); 'exactly once' is proved as: exactly one such batch, of all the Deferreds taken; the tie compares "
+    "the real per-Deferred firings (merged per request and outcome) with these events, order included",
+    "a notifyFinish Deferred of a request that is neither finished nor lost has not fired (it fires when one of the two happens): "
+    "proved as pending_while_in_flight; no liveness claim",
 ]
 TRUSTED = ["twisted.internet.testing.StringTransport(lenient=True); task.Clock; server.version / datetimeToString patched to constants"]
 MANIFEST = {
-    "text": "Lean theorems (TwistedProps/C21.lean) on the channel model: after connectionLost nothing happens any more and the pending "
-            "Deferreds were fired exactly then; finishing fires them with None exactly once (PARTIAL: the global statements — at most one "
-            "request in flight, responses contiguous and in order for every history — are checked by the oracle on the real event log and "
-            "by the tie on the order of events, not proved); model tied to http.py by differential runs over random histories with loss at "
-            "every event boundary.",
+    "text": "Lean theorems (TwistedProps/C21.lean + C21/*.lean) on the channel model, for every application and every history of "
+            "events from a fresh connection (deliveries in any segmentation; finish now/later/never; pause/resume; loss at any event "
+            "boundary): (a) at_most_one_request_in_flight — requests handed over are never more than one ahead of requestDone, "
+            "requestReceived only when all earlier ones are done, requestDone(k) is for the request in flight; (b) "
+            "responses_in_request_order_not_interleaved + written_is_concatenation_of_responses — the application's bytes for request k "
+            "are written only while k is in flight, the channel's own 100/400 lines only while none is, so the wire is own0 resp0 own1 "
+            "resp1 …; (c) notifyFinish_fires_exactly_once — for every request handed over its Deferreds fire in exactly one batch of all "
+            "of them, with None iff requestDone(k) ran (before any loss: nothing_after_loss), else with a failure iff the connection was "
+            "lost, else they are all still pending (pending_while_in_flight); no_firing_without_request; "
+            "notifyFinish_result_matches_order — a firing with None comes after requestDone(k), one with a failure while k is in flight. Proved by a global invariant "
+            "(reach_good) kept by allContentReceived/lineReceived/rawDataReceived/the receive loop/every event; nothing partial. Model "
+            "tied to http.py by differential runs over random histories with loss at every event boundary, event order included; the "
+            "oracle re-checks (a)-(c) on the real event log.",
     "note": "trusts Lean kernel, the hand-written channel model (differentially tied, event order included)",
-    "technique": "Lean 4 proof (loss/finish lemmas) + differential tie on event order + event-log oracle",
+    "technique": "Lean 4 proof (global invariant over channel state and outputs) + differential tie on event order + event-log oracle",
     "design_ref": "DESIGN.md §7 C21",
 }
 
